@@ -224,6 +224,7 @@ def _run_property(pid, sp, tier, seed, my_findings, tmpdir, t0):
             for k, v in job.get("env", {}).items():
                 env[k] = str(tierval(v, tier))
             if job["kind"] == "pbt":
+                env["VF_CURFILE"] = os.path.join(faildir, "current-%d.bin" % widx)
                 cases = tierval(job["cases"], tier)
                 env["RC_PARAMS"] = "seed=%d max_success=%d max_size=%d max_discard_ratio=100" % (
                     wseed, cases, tierval(job.get("max_size", 100), tier))
@@ -285,8 +286,8 @@ def _run_property(pid, sp, tier, seed, my_findings, tmpdir, t0):
             except OSError:
                 pass
             cur = glob.glob(os.path.join(ji["faildir"], "crash-*")) + glob.glob(os.path.join(ji["faildir"], "current-*"))
-            if kind == "fuzz" and cur:
-                raw_fails.append(dict(ji=ji, file=cur[0], sig="fuzz-crash", cls="CRASH", msg=tail[-600:]))
+            if cur and r["rc"] not in (2,):
+                raw_fails.append(dict(ji=ji, file=cur[0], sig="process-died:%s" % ji["job"]["h"], cls="CRASH", msg="worker process died while executing this case (rc=%s): %s" % (r["rc"], tail[-600:])))
             else:
                 errors.append("worker %d (%s) produced no result (rc=%s): %s" % (ji["idx"], jk, r["rc"], tail[-800:]))
             continue
